@@ -260,9 +260,23 @@ def run(world, tier, info, only=None):
               "gets the same suffix" % ([g.name(r) if isinstance(r, int) else r for r in ins_roots], g.name(nm_root) if isinstance(nm_root, int) else nm_root))
         F = mg.at_entry(bi) or ()
         ck.ob("R4", "name-reserved-before-lock", any(("calledbb", ib) in F for ib, _ in inserts), site(sg, st[3]), "the name is reserved on every path before the Lock is built")
-    # the chosen suffix was tested against the table: inside the suffix loop the break is taken only under !contains(new_name)
-    cont = g.calls(r"hash::set::HashSet::<T, S, A>::contains$")
-    ck.floor("R4", "name_table.contains tests in gen_locks", len(cont), 2)
+        # every value the name can take is reserved: from each definition of the name there is no path to the Lock that avoids
+        # name_table.insert (a suffixed name chosen after the reservation is not in the table: the next same-named project gets it again)
+        if isinstance(nm_root, int):
+            ins_blocks = [ib for ib, t in inserts if root_local(t["args"][1]) == nm_root]
+            for k, d in enumerate(sorted(g.defs.get(nm_root, []), key=lambda d: (d[1], d[2] if d[0] == "s" else 10 ** 6))):
+                start = d[1] if d[0] == "s" else g.blocks[d[1]]["t"].get("to")
+                if start is None:
+                    continue
+                if d[0] == "s" and d[1] in ins_blocks:
+                    esc = []
+                else:
+                    esc = flow.escapes(g, start, ins_blocks, stops=[bi])
+                line = g.blocks[d[1]]["s"][d[2]][3] if d[0] == "s" else g.blocks[d[1]]["t"]["l"]
+                ck.ob("R4", "every-name-reserved@%d" % (k + 1), bi not in esc, site(sg, line),
+                      "the name assigned here is inserted into name_table on every path to the Lock" if bi not in esc else
+                      "the name assigned here reaches the Lock without being inserted into name_table: a suffixed name that is never reserved "
+                      "is handed out again to the next project with the same declared name, and two dependencies share one output directory")
     # ---------------- R5 resolution sees the lock table as loaded ------------------------------------------------------
     callers = sorted(p for p, sm in w.fns.items() if p.startswith(LF) and not sm.get("alias_of") and p != GL and any(c["c"] == GL for c in sm["calls"]))
     ck.floor("R5", "callers of gen_locks", len(callers), 2)
